@@ -9,6 +9,7 @@ import (
 
 // CEnv is the context in which a contract expression is evaluated.
 type CEnv struct {
+	oldSelf Term // receiver value at entry, for methods that update their receiver in place
 	ttypes  map[string]types.Type // callee type parameter name -> type argument at the call
 	names   map[string]Term // parameters, ghosts, bound variables
 	st      *State          // current state
@@ -240,6 +241,8 @@ func (x *Exec) cident(env *CEnv, name, want string) Term {
 			return x.ghostBool(env.st, name)
 		case "sleeps", "added", "spawned", "doneCalls":
 			return x.ghostInt(env.st, name)
+		case "vtrace":
+			return x.ghostVTrace(env.st)
 		}
 		if t, ok := env.st.ghosts[name]; ok {
 			return t
@@ -510,6 +513,9 @@ func (x *Exec) ccall(env *CEnv, e CCall, want string) Term {
 		}
 		c := *env
 		c.st = env.old
+		if env.oldSelf.ok() {
+			c.self = env.oldSelf
+		}
 		if env.lookup != nil && env.oldLookup() != nil {
 			c.lookup = env.oldLookup()
 		}
@@ -1015,6 +1021,72 @@ func init() {
 		"hastype":   func(x *Exec, env *CEnv, e CCall, want string) Term { return x.cHseq(env, e, "hastype") },
 		"firsttype": func(x *Exec, env *CEnv, e CCall, want string) Term { return x.cHseq(env, e, "firsttype") },
 		"allhave":   func(x *Exec, env *CEnv, e CCall, want string) Term { return x.cHseq(env, e, "allhave") },
+		// ---- owned trees (duct) ----
+		"asnode": func(x *Exec, env *CEnv, e CCall, want string) Term {
+			v := x.ceval(env, e.Args[0], "")
+			if si := x.d.sorts[v.Sort]; si != nil && si.Kind == "node" {
+				return v
+			}
+			if v.Ty == nil {
+				if si := x.d.sorts[v.Sort]; si != nil && si.Go != nil {
+					v.Ty = si.Go
+				}
+			}
+			if w, ok := x.nodeWrap(v, v.Ty); ok {
+				return w
+			}
+			x.cfail(env, "asnode: %s (sort %s) is not a tree node", v.S, v.Sort)
+			return Term{}
+		},
+		"vev": func(x *Exec, env *CEnv, e CCall, want string) Term {
+			x.ductTheory(env)
+			k := x.ceval(env, e.Args[0], "Int")
+			d := x.ceval(env, e.Args[1], "Int")
+			n := x.ceval(env, e.Args[2], "")
+			return tApp("VEv", "vev", k, d, n)
+		},
+		"cberr": func(x *Exec, env *CEnv, e CCall, want string) Term {
+			x.ductTheory(env)
+			v := x.ceval(env, e.Args[0], "Ref")
+			k := x.ceval(env, e.Args[1], "Int")
+			return tApp("Err", "cberr", v, k)
+		},
+		"nodekind": func(x *Exec, env *CEnv, e CCall, want string) Term {
+			x.ductTheory(env)
+			return tApp("Int", "nodekind", x.ceval(env, e.Args[0], ""))
+		},
+		"walkT":  func(x *Exec, env *CEnv, e CCall, want string) Term { return x.cWalk(env, e, "walkT") },
+		"walkE":  func(x *Exec, env *CEnv, e CCall, want string) Term { return x.cWalk(env, e, "walkE") },
+		"walkKT": func(x *Exec, env *CEnv, e CCall, want string) Term { return x.cWalk(env, e, "walkKT") },
+		"walkKE": func(x *Exec, env *CEnv, e CCall, want string) Term { return x.cWalk(env, e, "walkKE") },
+		"ins": func(x *Exec, env *CEnv, e CCall, want string) Term {
+			x.ductTheory(env)
+			t := x.ceval(env, e.Args[0], "")
+			n := x.ceval(env, e.Args[1], "")
+			return tApp(t.Sort, "ins", t, n)
+		},
+		"closeinner": func(x *Exec, env *CEnv, e CCall, want string) Term {
+			x.ductTheory(env)
+			t := x.ceval(env, e.Args[0], "")
+			return tApp(t.Sort, "closeinner", t)
+		},
+		// constructors of duct nodes
+		"mkseq": func(x *Exec, env *CEnv, e CCall, want string) Term {
+			x.ductTheory(env)
+			sq := "S_github.com_fogfish_golem_duct.AstSeq"
+			vt := x.vtrees["github.com/fogfish/golem/duct"]
+			r := tApp(sq, "mk_"+sq, x.ceval(env, e.Args[0], "Bool"), x.ceval(env, e.Args[1], "Bool"), Term{S: "nil_L_" + vt.sort, Sort: "L_" + vt.sort})
+			r.Ty = x.d.sorts[sq].Go
+			return r
+		},
+		"mkfrom":  func(x *Exec, env *CEnv, e CCall, want string) Term { return x.cMkNode(env, e, "AstFrom") },
+		"mkmap":   func(x *Exec, env *CEnv, e CCall, want string) Term { return x.cMkNode(env, e, "AstMap") },
+		"mkyield": func(x *Exec, env *CEnv, e CCall, want string) Term { return x.cMkNode(env, e, "AstYield") },
+		"tname": func(x *Exec, env *CEnv, e CCall, want string) Term {
+			x.reflectSort()
+			x.d.instantiate("TypeName", map[string]string{"S_PTR": x.strLit("*").S, "S_SLICE": x.strLit("[]").S})
+			return tApp("Str", "tname", x.ceval(env, e.Args[0], "RType"))
+		},
 		"mfwd": func(x *Exec, env *CEnv, e CCall, want string) Term { return x.cMorph(env, e, true) },
 		"minv": func(x *Exec, env *CEnv, e CCall, want string) Term { return x.cMorph(env, e, false) },
 		"zero": func(x *Exec, env *CEnv, e CCall, want string) Term {
@@ -1252,6 +1324,70 @@ func (x *Exec) cTraceFF(env *CEnv, e CCall, name string) Term {
 	}
 	ret := map[string]string{"tflat": tb, "tferrs": te, "tfallok": "Bool"}[name]
 	return tApp(ret, name+"_"+em.fname, f, l)
+}
+
+func (x *Exec) ghostVTrace(st *State) Term {
+	x.ductTheory(nil)
+	if t, ok := st.ghosts["vtrace"]; ok {
+		return t
+	}
+	t := x.d.constant("vtrace@0", x.d.TrOf("VEv"))
+	st.ghosts["vtrace"] = t
+	return t
+}
+
+// ductTheory declares the visitor-event datatype and the tree functions (template Duct)
+// for the value tree of the duct package.
+func (x *Exec) ductTheory(env *CEnv) {
+	vt := x.vtrees["github.com/fogfish/golem/duct"]
+	if vt == nil {
+		if env != nil {
+			x.cfail(env, "no value tree declared for duct")
+		}
+		return
+	}
+	x.declareValueTree(vt)
+	if x.d.seen["theory:duct"] {
+		return
+	}
+	x.d.seen["theory:duct"] = true
+	x.errSort()
+	n := vt.sort
+	x.d.decl("sort:VEv", fmt.Sprintf("(declare-datatypes ((VEv 0)) (((vev (vev_kind Int) (vev_depth Int) (vev_node %s)))))", n))
+	x.d.sorts["VEv"] = &SortInfo{Kind: "datatype"}
+	tr := x.d.TrOf("VEv")
+	sq := "S_github.com_fogfish_golem_duct.AstSeq"
+	x.d.instantiate("Duct", map[string]string{"N": n, "LN": "L_" + n, "SEQ": sq, "T": tr,
+		"C_SEQ": vt.ctor["AstSeq"], "C_MAP": vt.ctor["AstMap"], "C_FROM": vt.ctor["AstFrom"], "C_YIELD": vt.ctor["AstYield"]})
+}
+
+func (x *Exec) cMkNode(env *CEnv, e CCall, tn string) Term {
+	x.ductTheory(env)
+	so := "S_github.com_fogfish_golem_duct." + tn
+	si := x.d.sorts[so]
+	if si == nil || len(si.FSorts) != len(e.Args) {
+		x.cfail(env, "constructor of %s takes %d arguments", tn, len(si.FSorts))
+	}
+	var args []Term
+	for i, a := range e.Args {
+		args = append(args, x.ceval(env, a, si.FSorts[i]))
+	}
+	r := tApp(so, si.Ctor, args...)
+	r.Ty = si.Go
+	return r
+}
+
+func (x *Exec) cWalk(env *CEnv, e CCall, name string) Term {
+	x.ductTheory(env)
+	v := x.ceval(env, e.Args[0], "Ref")
+	a := x.ceval(env, e.Args[1], "")
+	d := x.ceval(env, e.Args[2], "Int")
+	tr := x.ceval(env, e.Args[3], x.d.TrOf("VEv"))
+	ret := x.d.TrOf("VEv")
+	if strings.HasSuffix(name, "E") {
+		ret = "Err"
+	}
+	return tApp(ret, name, v, a, d, tr)
 }
 
 // cMorph: mfwd(l, s, t) / minv(l, t, s) over a list of isomorphism instances.
